@@ -30,7 +30,7 @@ Post(k) == CASE k = "hs" -> "hs" [] k = "create" -> "created" [] k = "auth" -> "
 Pkts == [k : {"hs"}, cls : BodyCls, caps : CapsVals]
    \cup [k : {"create"}, cls : BodyCls, cookieGood : BOOLEAN]
    \cup [k : {"auth"}, cls : BodyCls]
-   \cup [k : {"chan"}, cls : BodyCls, hostAllowed : BOOLEAN]
+   \cup [k : {"chan"}, cls : BodyCls, hostAllowed : {"yes", "no", "free"}]
    \cup [k : {"data", "keepalive", "close", "other"}, cls : {"valid"}]
 
 RespCls == {"none", "ok", "mismatch", "cookie", "rap", "err"}
@@ -88,11 +88,12 @@ G_C16_AuthAccepted(c, ph, nd, p, o) == (p.k = "auth" /\ ph = "created" /\ Valid(
 \* tunnel; refusal is RAP_ACCESSDENIED and nothing is dialled
 G_C03_DialIffAllowed(c, ph, nd, p, o) ==
   (p.k = "chan" /\ ph = "authorized" /\ Valid(p)) =>
-     /\ o.dial <=> p.hostAllowed
-     /\ ~p.hostAllowed => (o.resp = "rap" /\ o.end)
+     /\ p.hostAllowed = "yes" => o.dial
+     /\ p.hostAllowed = "no" => ~o.dial
+     /\ ~o.dial => (o.resp = "rap" /\ o.end)
 \* a malformed channel request may be refused, but is never dialled unless allowed
 G_C03_MalformedNotDialled(c, ph, nd, p, o) ==
-  (p.k = "chan" /\ ~Valid(p) /\ o.dial) => p.hostAllowed
+  (p.k = "chan" /\ ~Valid(p) /\ o.dial) => p.hostAllowed # "no"
 
 \* C16: status 0 iff accepted - a channel response is success iff the host was connected
 G_C16_ChannelTruth(c, ph, nd, p, o) ==
@@ -219,9 +220,9 @@ H_C02_CookieNeeded == (cfg.tokenAuth /\ Len(oks) >= 2) => tokOk
 H_C02_RefusalCode ==
   (cfg.tokenAuth /\ L.p.k = "create" /\ L.ph = "hs" /\ ~L.p.cookieGood) => L.o.resp = "cookie"
 \* C03 / C04
-H_C03_OnlyAllowedDialled == L.o.dial => (L.p.k = "chan" /\ L.p.hostAllowed)
+H_C03_OnlyAllowedDialled == L.o.dial => (L.p.k = "chan" /\ L.p.hostAllowed # "no")
 H_C03_DeniedCode ==
-  (L.p.k = "chan" /\ Valid(L.p) /\ L.ph = "authorized" /\ ~L.p.hostAllowed) => (L.o.resp = "rap" /\ ~L.o.dial)
+  (L.p.k = "chan" /\ Valid(L.p) /\ L.ph = "authorized" /\ L.p.hostAllowed = "no") => (L.o.resp = "rap" /\ ~L.o.dial)
 \* C17
 H_C17_Handshake ==
   (L.p.k = "hs" /\ Valid(L.p) /\ L.ph = "init") =>
